@@ -52,7 +52,7 @@ B("c13-reuse-key", "C13", "C13.R2", (W, "AutoResetWrapper._auto_reset", "replace
 B("c13-order", "C13", "C13.R2", (W, "AutoResetWrapper._auto_reset", "swap", "timestep = self._maybe_add_obs_to_extras(timestep)", "timestep = timestep.replace(observation=reset_timestep.observation)"))
 B("c13-replace-reward", "C13", "C13.R2", (W, "AutoResetWrapper._auto_reset", "expr", "timestep.replace(observation=reset_timestep.observation)", "timestep.replace(observation=reset_timestep.observation, reward=reset_timestep.reward)"))
 B("c13-pred-first", "C13", "C13.R1", (W, "AutoResetWrapper.step", "expr", "timestep.last()", "timestep.mid()"))
-B("c13-keep-resets-extras", "C13", "C13.R1", (W, "AutoResetWrapper.step", "expr", "(s, self._maybe_add_obs_to_extras(t))", "(s, t)"))
+B("c13-keep-resets-extras", "C13", "C13.R3", (W, "AutoResetWrapper.step", "expr", "(s, self._maybe_add_obs_to_extras(t))", "(s, t)"))
 B("c13-const-key", "C13", "C13.R2", (W, "AutoResetWrapper._auto_reset", "replace_stmt", "key, _ = jax.random.split(state.key)", "key = jax.random.PRNGKey(0)"))
 B("c13-next-obs-wrong-field", "C13", "C13.R3", (W, "add_obs_to_extras", "expr", "timestep.observation", "timestep.reward"))
 B("c13-wiring-swapped", "C13", "C13.R3", (W, "AutoResetWrapper.__init__", "expr", "next_obs_in_extras", "not next_obs_in_extras", 2))
